@@ -160,6 +160,14 @@ fn sequence_doc(
     let mut rest = Vec::new();
     let mut prev_tall = false;
     for (index, chain) in sequence.chains.iter().enumerate() {
+        // A broken sequence keeps the comma where a newline alone would not end this step (a
+        // comment does).
+        if index > 0
+            && !trivia.has_trailing(sequence.chains[index - 1].span)
+            && needs_comma(&sequence.chains[index - 1], chain)
+        {
+            rest.push(pretty::if_break(pretty::text(","), pretty::nil()));
+        }
         let leading = if index == 0 && skip_first_leading {
             pretty::nil()
         } else {
@@ -187,6 +195,38 @@ fn sequence_doc(
         first,
         pretty::nest(continuation_nest, pretty::concat(rest)),
     ]))
+}
+
+/// Whether the separator between two steps must stay a comma: a newline alone does not end a
+/// function head, so a block that starts the next step would become its body (`#'int`, `{ … }`).
+fn needs_comma(step: &Chain, next: &Chain) -> bool {
+    next.match_pattern.is_none()
+        && matches!(next.terms.first(), Some(Term::Block(_)))
+        && step.terms.last().is_some_and(takes_body)
+}
+
+/// Whether a `{ … }` that follows this term is read as the body of the function it heads.
+fn takes_body(term: &Term) -> bool {
+    match term {
+        Term::Function(function) => function.body.is_none(),
+        // `@[A] { … }` spawns a function of an `[A]`.
+        Term::Spawn(inner, _) => matches!(inner.as_ref(), Term::Tuple(_)) || takes_body(inner),
+        _ => false,
+    }
+}
+
+/// What joins two terms of a chain on one line: a space, or an explicit `~>` where the parser would
+/// read the pair as one term — `! [a]` selects from sources, and a block after a function head is
+/// its body.
+fn term_gap(term: &Term, next: &Term) -> &'static str {
+    let joins = match next {
+        Term::Tuple(tuple) => {
+            matches!(term, Term::Select(None, _)) && matches!(tuple.name, TupleName::Anonymous)
+        }
+        Term::Block(_) => takes_body(term),
+        _ => false,
+    };
+    if joins { " ~> " } else { " " }
 }
 
 /// Whether a sequence step renders across several lines as an *undelimited* pipeline, so it is set
@@ -321,15 +361,14 @@ fn chain_doc(trivia: &Trivia, chain: &Chain) -> Doc {
         // …unless a head term carries a comment (it forces a break): flattening it would comment out
         // the rest of the line, so fall back to the ordinary grouped layout, which breaks safely.
         if !head_docs.iter().any(pretty::forces_break) {
-            let head_flat = head_docs
-                .iter()
-                .map(pretty::flatten)
-                .collect::<Vec<_>>()
-                .join(" ");
+            let mut head_flat = String::new();
+            for (index, doc) in head_docs.iter().enumerate() {
+                head_flat.push_str(&pretty::flatten(doc));
+                head_flat.push_str(term_gap(&terms[index], &terms[index + 1]));
+            }
             return pretty::concat(vec![
                 prefix,
                 pretty::text(head_flat),
-                pretty::text(" "),
                 term_doc(trivia, &tail[0]),
             ]);
         }
@@ -363,7 +402,7 @@ fn chain_terms_doc(trivia: &Trivia, terms: &[Term]) -> Doc {
                 parts.push(pretty::line());
                 parts.push(pretty::if_break(pretty::text("~> "), pretty::nil()));
             } else {
-                parts.push(pretty::text(" "));
+                parts.push(pretty::text(term_gap(&terms[index - 1], term)));
             }
         }
         parts.push(term_doc(trivia, term));
@@ -891,6 +930,12 @@ impl Trivia {
             })
             .collect();
         pretty::concat(parts)
+    }
+
+    /// Whether the node starting at `span` carries trailing comments.
+    fn has_trailing(&self, span: Spanned) -> bool {
+        span.get()
+            .is_some_and(|span| self.trailing.contains_key(&span.offset))
     }
 
     /// Whether the node starting at `span` carries any leading or trailing trivia.
